@@ -165,6 +165,34 @@ theorem C01_isOk_iff_legal (p : Pos) (m : Move) (hwf : p.WF) :
 example : ∃ q, Impl.move ex5 mvCarry5 = .ok q :=
   (C01_accept_iff_legal ex5 mvCarry5 (by decide)).2 (by decide)
 
+/-- A slide that leaves the board is refused, whatever the stacks look like: if some drop of the
+    tuple would land outside the grid (a slide of `size` drops from an edge square, a path one
+    square too long, …) `Position.move` raises `IllegalMove`.  The off-board stream of the tie
+    (`gen.offboard_moves`) samples exactly this family. -/
+theorem C01_offboard_refused (p : Pos) (m : Move) (hwf : p.WF) (hs : m.type.isSlide = true)
+    {ds : List Nat} (hd : slideDrops m = some ds) {i : Nat} (hi : i < ds.length)
+    (hout : p.inBounds (pathSq m i).1 (pathSq m i).2 = false) :
+    ∀ q, Impl.move p m ≠ .ok q := by
+  intro q hq
+  have hl : Rules.Legal p m := (C01_accept_iff_legal p m hwf).1 ⟨q, hq⟩
+  rcases hl with ⟨k, hk⟩ | ⟨ds', hs'⟩
+  · have hkind := hk.kind
+    cases hty : m.type <;> rw [hty] at hs hkind <;> simp_all [MoveType.isSlide, placeKind]
+  · have : ds' = ds := by
+      have := hs'.drops
+      rw [hd] at this
+      exact (Option.some.inj this).symm
+    subst this
+    have := hs'.pathIn i hi
+    rw [hout] at this
+    cases this
+
+/-- hypotheses of `C01_offboard_refused` met: the six-stack on (0,3) of the 5x5 board slid right
+    with five drops of one — a carry of exactly `size`, one square more than the row has -/
+example : ∀ q, Impl.move ex5 ⟨0, 3, .right, some [1, 1, 1, 1, 1]⟩ ≠ .ok q :=
+  C01_offboard_refused ex5 ⟨0, 3, .right, some [1, 1, 1, 1, 1]⟩ (by decide) (by decide)
+    (ds := [1, 1, 1, 1, 1]) (by decide) (i := 4) (by decide) (by decide)
+
 /-- no exception other than the domain's own escapes -/
 theorem C01_no_crash (p : Pos) (m : Move) (hwf : p.WF) :
     ∀ c, Impl.move p m ≠ .error (.crash c) := by
